@@ -394,7 +394,11 @@ def ev_timestamp(form, civil):
         back = email.utils.parsedate_to_datetime(r[1])
     except Exception as e:
         return res.bad("format_timestamp:unparseable", "%r not parseable: %r" % (r[1], e))
-    if res.cls == "must" and back != datetime.datetime(*civil, tzinfo=datetime.timezone.utc):
+    exact = datetime.datetime(*civil, tzinfo=datetime.timezone.utc)
+    if res.cls != "must" and back != exact + datetime.timedelta(seconds=1):
+        res.bad("format_timestamp:wrong-string:float.", "format_timestamp(%r) = %r is neither the "
+                "floor nor the truncation of the instant %r" % (arg, r[1], civil))
+    if res.cls == "must" and back != exact:
         res.bad("format_timestamp:round-trip", "format_timestamp(%r) = %r parses back as %r"
                 % (arg, r[1], back))
     return res
@@ -778,7 +782,7 @@ class C43(Check):
             self.run_case(st, ("enc", key, items))
 
     def p_ck(self, st, tier, k, shard, n):
-        pairs = [(a, b) for a in ("a", "b", "") for b in ("1", "", "x", '"q"', '"a;b"'[:0] + "2")]
+        pairs = [(a, b) for a in ("a", "b", "") for b in ("1", "", "x", '"q"', "2")]
         for m in (1, 2, 3):
             for ps in itertools.product(pairs, repeat=m):
                 self.run_case(st, ("ck", list(ps)))
@@ -855,7 +859,7 @@ class C43(Check):
 
     def p_ip6(self, st, tier, k, shard, n):
         for s in ipv6_texts(k["groups"], shard, n):
-            self.run_case(st, ("ip", s), s.count(":") <= 4 or "::" not in s or True)
+            self.run_case(st, ("ip", s))
 
     def p_uni(self, st, tier, k, shard, n):
         cps = uni_codepoints(tier)
